@@ -61,14 +61,24 @@ def gen(rng, tier):
         ws = G.words_str(p['Sigma'], 2 if len(p['Sigma']) > 1 else 3) + G.random_words(rng, p['Sigma'], 4, 5)
         cfgs = [[rng.choice(p['Q']), [rng.choice(p['Gamma'] or ['x']) for _ in range(rng.randint(0, 3))]] for _ in range(3)]
         cases.append({'P': p, 'limit': limit, 'ws': ws, 'sets': [[['q0', []]], cfgs[:1], cfgs]})
+    # the same object is queried, its transitions are replaced in place, and it is queried again
+    for _ in range(60 if quick else 1000):
+        sg, gm, e = rng.choice(['a', 'ab']), 'xy', rng.choice(['_', ''])
+        n = rng.randint(2, 3)
+        p1 = G.random_pda(rng, n, sg, gm, e, ntrans=rng.randint(2, 7), kinds=['push', 'pop', 'noop', 'pop'])
+        p2 = G.random_pda(rng, n, sg, gm, e, ntrans=rng.randint(2, 7), kinds=['push', 'pop', 'noop', 'pop'])
+        p1['Gamma'] = p2['Gamma'] = sorted(set(p1['Gamma']) | set(p2['Gamma']))
+        for pp_ in (p1, p2):
+            pp_['delta'] = [t for t in pp_['delta'] if not (t[1] == e and t[4] != e)]
+        ws = G.words_str(sg, 2 if len(sg) > 1 else 3)
+        cases.append({'P': p1, 'limit': 50, 'ws': ws, 'sets': [[['q0', []]]], 'then': {'P': p2, 'limit': 50, 'ws': ws, 'sets': [[['q0', []]]]}})
     return cases
 
 
-def observe(c):
+def _observe1(c, P):
     from gambatools import pda_algorithms as PA
     from gambatools.global_settings import GambaTools
     from implutil import safe, ok
-    P = conv.pda_obj(c['P'])
     old = GambaTools.pda_epsilon_closure_max_iterations
     GambaTools.pda_epsilon_closure_max_iterations = c['limit']
     try:
@@ -96,7 +106,30 @@ def observe(c):
     return {'verdicts': verdicts, 'closures': closures, 'steps': steps, 'pp': pp}
 
 
+def observe(c):
+    """`then`: the same PDA object is modified in place (its transitions replaced) and queried again"""
+    P = conv.pda_obj(c['P'])
+    o = _observe1(c, P)
+    if c.get('then'):
+        p2 = c['then']['P']
+        P.delta.clear()
+        for (p, a, u, q, v) in p2['delta']:
+            if (p, a, u) not in P.delta:
+                P.delta[(p, a, u)] = set()
+            P.delta[(p, a, u)].add((q, v))
+        P.F.clear()
+        P.F.update(p2['F'])
+        o['then'] = _observe1(c['then'], P)
+    return o
+
+
 def encode(c, o):
+    if c.get('then'):
+        return 'worst_code [%s; %s]' % (_encode1(c, o), _encode1(c['then'], o['then']))
+    return _encode1(c, o)
+
+
+def _encode1(c, o):
     p = c['P']
     st, sy, f = L.pda_names(p)
     lit = L.pda(p, st, f)
@@ -118,7 +151,7 @@ def explain(c):
 
 
 def key(c):
-    return conv.pda_text(c['P']) + '|%d' % c['limit']
+    return conv.pda_text(c['P']) + '|%d' % c['limit'] + ('\n=then=>\n' + key(c['then']) if c.get('then') else '')
 
 
 def nontrivial(c, o):
